@@ -441,6 +441,39 @@ theorem C05_int_to_float_exact_types (S : IntTy) (hS : S ∈ IntTy.all) (F : Flt
 example : Flt.ofInt f32 16777216 = .fin 16777216 ∧ Flt.ofInt f32 16777217 ≠ .fin 16777217 := by
   decide +kernel
 
+/-! ## Floating → narrower floating -/
+
+theorem castLimFF_table : ∀ p ∈ [(f64, f32), (f80, f32), (f80, f64)],
+    categorizeOverflow (.flt p.1) (.flt p.2) = .floatToAnything ∧
+    castLimLo p.1 (.flt p.2) = .fin (-p.2.maxFinite) ∧
+    castLimHi p.1 (.flt p.2) = .fin p.2.maxFinite := by
+  decide +kernel
+
+/-- **C05, narrowing floating casts.**  `double → float`, `long double → float`,
+`long double → double`: a value that `will_static_cast_overflow` does not flag is NaN or a finite
+value within `[lowest(Dest), max(Dest)]`, and its cast to `Dest` is finite (proved about the rounding
+function: a rational of magnitude at most `max` never rounds to infinity).  ±inf is always flagged. -/
+theorem C05_float_narrowing_sound (S D : FltTy)
+    (hp : (S, D) ∈ [(f64, f32), (f80, f32), (f80, f64)]) (x : Flt)
+    (ho : willCastOverflow (.flt S) (.flt D) (.f x) = false) :
+    x = .nan ∨ ∃ q r : Rat, x = .fin q ∧ Flt.cast D x = .fin r := by
+  obtain ⟨hcat, hlo, hhi⟩ := castLimFF_table (S, D) hp
+  have hD : D ∈ FltTy.all := by
+    simp only [List.mem_cons, Prod.mk.injEq, List.mem_nil_iff, or_false] at hp
+    rcases hp with ⟨_, rfl⟩ | ⟨_, rfl⟩ | ⟨_, rfl⟩ <;> decide
+  obtain ⟨h1, h2, h3⟩ := fmt_facts2 D hD
+  simp only [willCastOverflow, castOverflowF] at ho
+  simp only [] at hcat hlo hhi
+  rw [hcat, hlo, hhi] at ho
+  simp only [] at ho
+  cases x with
+  | nan => exact Or.inl rfl
+  | inf s => cases s <;> simp [Flt.lt, Flt.gt] at ho
+  | fin q =>
+    simp only [Flt.lt, Flt.gt, Bool.or_eq_false_iff, decide_eq_false_iff_not, Rat.not_lt] at ho
+    obtain ⟨r, hr⟩ := rne_finite D h1 h2 h3 q ho.1 ho.2
+    exact Or.inr ⟨q, r, rfl, hr⟩
+
 /-! ## Floating common type: the scaling step itself (finding F12) -/
 
 /-- Full statement: a finite floating input that is not reported lossy is scaled to a finite value
